@@ -793,3 +793,8 @@ package logql
 //@   capture nx = call(p.next, 0)
 //@   ensures[tokenize-then-parse] ret1 == nil ==> tk_called && tk_a0 == s && tk_r1 == nil && ps_called && ps_r1 == nil && same(sel, ps_r0)
 //@   ensures[whole-input-consumed] ret1 == nil ==> nx_called && nx_r0.Type == lexer.EOF
+
+// ---- C17 (nil sweep): ReduceBinOp answers (nil, nil) for an expression that is not constant;
+// its callers must look at the result before using it.
+//@ func ReduceBinOp
+//@   may_return_nil
